@@ -384,7 +384,9 @@ def check_eval(ctx):
             continue
         ctx.seen('span_kinds', spec.kind)
         for k in range(per_span):
-            names = rng.choice([['X', 'Y'], ['X', 'Y', 'Z'], ['x1', 'H_h'], ['lagged', 'X'], ['X', 'exp1', 'Yd']])
+            names = rng.choice([['X', 'Y'], ['X', 'Y', 'Z'], ['x1', 'H_h'], ['lagged', 'X'], ['X', 'exp1', 'Yd'],
+                                # variables named like members of the container (a property, methods) are variables all the same
+                                ['size', 'copy'], ['values', 'X', 'reindex']])
             helper_names = ['lag', 'lead', 'diff', 'dlog', 'exp', 'log']
             c, data = make_container(spec, names, rng)
             g = G(rng, spec, names, helper_names)
